@@ -273,7 +273,7 @@ func staleEntries(pd *propDef, v *Verdict) []string {
 }
 
 func writeReplay(id string, lines []string) string {
-	dir := filepath.Join(verifDir(), "out")
+	dir := filepath.Join(outBase(), "out")
 	os.MkdirAll(dir, 0o755)
 	path := filepath.Join(dir, id+".violations.json")
 	b, _ := json.MarshalIndent(map[string]any{"property": id, "violations": lines,
